@@ -608,25 +608,25 @@ func Probe(site string) {
 // Result
 
 type Result struct {
-	Seed       uint64
-	Steps      int
-	SimTime    time.Duration
-	Trace      []uint32
-	Kinds      []byte
-	History    []Rec
-	Failures   []Failure
-	EngineErr  []string
-	Probes     map[string]int
-	Live       []string // names of tasks still alive when the run ended
-	Horizon    bool     // the simulated-time horizon was reached before main returned
-	StepLimit  bool
-	Strategy   string
-	SchedHash  uint64
-	Interleave int
+	Seed        uint64
+	Steps       int
+	SimTime     time.Duration
+	Trace       []uint32
+	Kinds       []byte
+	History     []Rec
+	Failures    []Failure
+	EngineErr   []string
+	Probes      map[string]int
+	Live        []string // names of tasks still alive when the run ended
+	Horizon     bool     // the simulated-time horizon was reached before main returned
+	StepLimit   bool
+	Strategy    string
+	SchedHash   uint64
+	Interleave  int
 	MaxRunnable int
-	Stalls     int
-	Idles      int
-	Tasks      int
+	Stalls      int
+	Idles       int
+	Tasks       int
 }
 
 // Run executes one simulated run. body runs as the main task; the function it returns (may
